@@ -183,7 +183,9 @@ def run_case(case):
     n0 = len(exprs)
     exprs = [e for e in exprs if not huge_shift(e)]
     cnt['huge_shift_skipped'] += n0 - len(exprs)
-    vals, exhaustive = ed.valuations(in_types, rnd, exhaustive_bits=10, samples=200)
+    total_bits = sum((t[1] or 1) for t in in_types.values())
+    # (every bit of a Python-level vector is an object: wide operands are sampled more sparsely to keep a shard within minutes)
+    vals, exhaustive = ed.valuations(in_types, rnd, exhaustive_bits=10, samples=200 if total_bits <= 24 else 60 if total_bits <= 70 else 30)
     # ---- D: direct results; keep expressions that succeed on at least one valuation with one stable type
     table = []
     kept = []
